@@ -19,6 +19,18 @@ CLAIMED = {
         note="Not decided: 'every proper prefix of an acceptable item gives NOTENOUGHDATA' (quantifies over the accepted "
              "language). 'Nothing left allocated' is decided by C01 rule 4 / C04 / C06.",
         design="§4 C05"),
+    "C06": dict(
+        technique="path-sensitive nullness and ownership typestate over every path of every library function, with interprocedural may-return-alloc-null / may-deref-unchecked summaries; never-before rule for container atomicity",
+        text="Instead of refusing the k-th request per scenario, every allocation site x every path after it is enumerated: "
+             "(1) a possibly-NULL allocation result is tested before any dereference, unchecked-dereferencing callee or "
+             "being left in a returned structure (210 source x use sites); (2) every owned reference and raw block is "
+             "released / handed off / returned exactly once on every path, failure arms included; (3) container operations "
+             "perform no store and no incref on a path that returns false; (4) cbor_serialize_alloc and the builders report "
+             "through the documented channel. Covers all k for all inputs because it quantifies over paths.",
+        note="Paths are acyclic unrollings (each loop 0 and 1 times) - generalised by the loops being uniform counted loops; "
+             "feasibility filtering is syntactic only, so an infeasible path can cost a false alarm but not a miss. Distinct "
+             "parameters are assumed not to alias.",
+        design="§4 C06"),
     "C08": dict(
         technique="exhaustive path enumeration of the loop-free decoder (claim_bytes inlined) + comparison of every path outcome with an RFC 8949 reference action table for all 256 initial bytes",
         text="All paths of cbor_stream_decode are enumerated symbolically-by-construction (terms, no solver) and, for each "
